@@ -146,9 +146,15 @@ func (ex *Exec) initPackage(pkg *ssa.Package) {
 		defer func() {
 			if r := recover(); r != nil {
 				if pa, ok := r.(pathAbort); ok && (pa.kind == abUnsupported) {
-					// the rest of the initialiser is skipped; globals not yet assigned stay at zero and
-					// are flagged as poisoned below
+					// the rest of the initialiser is skipped; recorded as an assumption of the run
 					ex.sideTable["initfail:"+pkg.Pkg.Path()] = pa.msg
+					ex.H.Assumes["package initialiser of "+pkg.Pkg.Path()+" only partially executed: "+pa.msg] = true
+					return
+				}
+				if _, isAbort := r.(pathAbort); !isAbort {
+					msg := fmt.Sprint(r)
+					ex.sideTable["initfail:"+pkg.Pkg.Path()] = msg
+					ex.H.Assumes["package initialiser of "+pkg.Pkg.Path()+" only partially executed: "+msg] = true
 					return
 				}
 				panic(r)
@@ -406,7 +412,51 @@ func (ex *Exec) prepareCall(fr *Frame, ins ssa.Instruction, cc *ssa.CallCommon) 
 // ---------------------------------------------------------------------------
 // Instructions
 
+// poisonStep propagates unsupported values during lenient package initialisation: an instruction with a poisoned
+// operand yields a poisoned result (or stores poison) instead of executing.
+func (ex *Exec) poisonStep(fr *Frame, ins ssa.Instruction) bool {
+	var buf [8]*ssa.Value
+	var why PoisonV
+	found := false
+	for _, op := range ins.Operands(buf[:0]) {
+		if *op == nil {
+			continue
+		}
+		if v, ok := fr.env[*op]; ok {
+			if p, isP := v.(PoisonV); isP {
+				why, found = p, true
+				break
+			}
+		}
+	}
+	if !found {
+		return false
+	}
+	switch i := ins.(type) {
+	case *ssa.Store:
+		if p, ok := fr.env[i.Addr].(Pointer); ok && p.L != nil {
+			p.L.V = why
+		} else if g, ok := i.Addr.(*ssa.Global); ok {
+			ex.globalLoc(g).V = why
+		}
+	case ssa.Value:
+		if tup, ok := i.Type().(*types.Tuple); ok {
+			tv := make(TupleV, tup.Len())
+			for k := range tv {
+				tv[k] = why
+			}
+			fr.env[i] = tv
+		} else {
+			fr.env[i] = why
+		}
+	}
+	return true
+}
+
 func (ex *Exec) step(fr *Frame, ins ssa.Instruction) {
+	if ex.lenient > 0 && ex.poisonStep(fr, ins) {
+		return
+	}
 	switch i := ins.(type) {
 	case *ssa.DebugRef:
 	case *ssa.Alloc:
